@@ -119,6 +119,32 @@ def run(ck):
     for fn, what in ((seq, "ApplyResult of sequential driver"), (par, "ApplyResult of parallel driver"),
                      (cmd_push, "Ok(..) of cmd_push")):
         check_result_independent(ck, fn, what)
+    # how far the applying loops go does not depend on dry_run: no loop exit of a function that applies file patches sits inside a
+    # dry_run-dependent region (a dry run has to meet the same first failing patch as the real run)
+    napply = 0
+    for fn in sorted(prog.fns.values(), key=lambda f: f.id):
+        if fn.crate != "rapidquilt" or not calls_named(fn, "apply_one_file_patch"):
+            continue
+        napply += 1
+        reg, gs = dry_run_any_region(fn)
+        bad_exits = []
+        for head, body in cfg.loops(fn).items():
+            for b_ in body:
+                if b_ not in reg:
+                    continue
+                for sx in fn.succs(b_):
+                    if sx in body or fn.blocks[sx]["cleanup"]:
+                        continue
+                    # leaving through `?` (an error is on its way out) is not a decision about how far to go
+                    t_ = fn.blocks[b_]["term"]
+                    if t_["k"] == "call" and (callee_of(t_).get("path") or "").endswith("from_residual"):
+                        continue
+                    bad_exits.append((b_, sx))
+        ck.require(not bad_exits, "C10-R3", "the applying loop of %s goes equally far with and without --dry-run" % fn.id.split("::")[-1],
+                   "%s leaves its loop from inside a dry_run-dependent region (edges %s): a dry run can stop before it has met the patch the real run "
+                   "fails on, and then predicts another failing patch" % (fn.id, bad_exits[:3]), fn.where(fn.blocks[bad_exits[0][0]]["term"]) if bad_exits else fn.where(),
+                   ok_detail="no loop exit depends on dry_run")
+    ck.floor("C10-R3", "functions that apply file patches in a loop", napply, 2)
     # atomics that carry the applied count are not updated under a dry_run guard
     for fn in prog.fns.values():
         reg, gs = dry_run_any_region(fn)
